@@ -20,9 +20,9 @@ EXTENDS Integers, Sequences, FiniteSets, TLC, Json, IOUtils
 Trace == ndJsonDeserialize(IOEnv.TRACE_FILE)
 
 VARIABLES l, scn, hooks, pred, reqi, tx, acq, step, lastw, pendA, failedH, open, cancelled, cmds, laterStart, lateErr, sawAfter,
-          inWin, winStarted, outStarted, run, runView, seen, ended, endS, endC, nviol
+          inWin, winStarted, outStarted, run, runView, seen, pg, ended, endS, endC, nviol
 
-vars == <<l, scn, hooks, pred, reqi, tx, acq, step, lastw, pendA, failedH, open, cancelled, cmds, laterStart, lateErr, sawAfter, inWin, winStarted, outStarted, run, runView, seen, ended, endS, endC, nviol>>
+vars == <<l, scn, hooks, pred, reqi, tx, acq, step, lastw, pendA, failedH, open, cancelled, cmds, laterStart, lateErr, sawAfter, inWin, winStarted, outStarted, run, runView, seen, pg, ended, endS, endC, nviol>>
 
 Line == Trace[l]
 Soft(name, cond, detail) == IF cond THEN 0 ELSE IF PrintT(<<"VIOL", name, scn, l, detail>>) THEN 1 ELSE 1
@@ -40,20 +40,20 @@ Init ==
   /\ l = 1 /\ scn = -1 /\ hooks = <<>> /\ pred = <<>> /\ reqi = 0 /\ tx = "" /\ acq = "" /\ step = NoStep /\ lastw = -100000
   /\ open = {} /\ pendA = {} /\ failedH = {} /\ cancelled = FALSE /\ cmds = 0 /\ laterStart = FALSE /\ lateErr = FALSE /\ sawAfter = FALSE
   /\ inWin = FALSE /\ winStarted = {} /\ outStarted = {}
-  /\ run = 0 /\ runView = NoView /\ seen = NoSeen /\ ended = TRUE /\ endS = 0 /\ endC = 0 /\ nviol = 0
+  /\ run = 0 /\ runView = NoView /\ seen = NoSeen /\ pg = {} /\ ended = TRUE /\ endS = 0 /\ endC = 0 /\ nviol = 0
 
 TReset ==
   /\ Line.ev = "Reset"
   /\ scn' = Line.scn /\ hooks' = Line.model.hooks /\ pred' = Line.model.pred /\ reqi' = 0 /\ tx' = "" /\ acq' = ""
   /\ step' = NoStep /\ lastw' = -100000 /\ open' = {} /\ pendA' = {} /\ failedH' = {} /\ cancelled' = FALSE /\ cmds' = 0 /\ laterStart' = FALSE /\ lateErr' = FALSE /\ sawAfter' = FALSE
   /\ inWin' = FALSE /\ winStarted' = {} /\ outStarted' = {}
-  /\ run' = 0 /\ runView' = NoView /\ seen' = NoSeen /\ ended' = TRUE /\ endS' = 0 /\ endC' = 0
+  /\ run' = 0 /\ runView' = NoView /\ seen' = NoSeen /\ pg' = {} /\ ended' = TRUE /\ endS' = 0 /\ endC' = 0
   /\ UNCHANGED nviol
 
 TAcq ==
   /\ Line.ev = "Acq"
   /\ tx' = Line.what /\ acq' = Line.st /\ cancelled' = FALSE /\ cmds' = 0 /\ laterStart' = FALSE /\ lateErr' = FALSE /\ sawAfter' = FALSE
-  /\ UNCHANGED <<scn, hooks, pred, reqi, step, lastw, pendA, failedH, open, inWin, winStarted, outStarted, run, runView, seen, ended, endS, endC, nviol>>
+  /\ UNCHANGED <<scn, hooks, pred, reqi, step, lastw, pendA, failedH, open, inWin, winStarted, outStarted, run, runView, seen, pg, ended, endS, endC, nviol>>
 
 \* end of a transition: the C09 clauses about what a failure at each moment means
 TRel ==
@@ -62,6 +62,9 @@ TRel ==
        + Soft("CancelBefore", cancelled => (Line.st = acq /\ cmds = 0 /\ ~laterStart), <<tx, acq, Line.st, cmds, laterStart>>)
        \* C09: a failure at enter_/after_ keeps the destination state and the remaining moments still run
        + Soft("KeepAfter", lateErr => (Line.st = Dst(tx) /\ sawAfter), <<tx, Line.st, sawAfter>>)
+       \* C10: a hook outside the run window saw a run number that no SOSOR of this transition explains
+       + Soft("Gone", pg = {}, pg)
+  /\ pg' = {}
   /\ tx' = "" /\ acq' = "" /\ cancelled' = FALSE /\ cmds' = 0 /\ laterStart' = FALSE /\ lateErr' = FALSE /\ sawAfter' = FALSE
   /\ UNCHANGED <<scn, hooks, pred, reqi, step, lastw, pendA, failedH, open, inWin, winStarted, outStarted, run, runView, seen, ended, endS, endC>>
 
@@ -99,7 +102,7 @@ TStep ==
                         <<Line.m, Line.k>>)
   /\ inWin' = IF Line.phase = "end" /\ Line.m = "after_STOP_ACTIVITY" THEN FALSE ELSE inWin
   /\ winStarted' = IF Line.phase = "end" /\ Line.m = "after_STOP_ACTIVITY" THEN {} ELSE winStarted
-  /\ UNCHANGED <<scn, hooks, pred, reqi, tx, acq, pendA, failedH, open, cmds, outStarted, run, runView, seen, ended, endS, endC>>
+  /\ UNCHANGED <<scn, hooks, pred, reqi, tx, acq, pendA, failedH, open, cmds, outStarted, run, runView, seen, pg, ended, endS, endC>>
 
 \* a probe hook starts: where, in which order, and what it sees of the run
 THS ==
@@ -113,6 +116,7 @@ THS ==
      IN
      /\ runView' = IF inside /\ runView.rn = 0 THEN [rn |-> Line.rn, sosor |-> Line.sosor] ELSE runView
      \* what the hooks of one run (same start time) have seen of its four stamps so far
+     /\ pg' = IF outside /\ Line.rn # 0 THEN pg \cup {<<Line.hook, Line.rn>>} ELSE pg
      /\ seen' = IF SameRun THEN [f \in DOMAIN NoSeen |-> IF seen[f] = 0 THEN Line[f] ELSE seen[f]] ELSE seen
      /\ nviol' = nviol
           \* C10: each stamp is set at most once per run: two hooks of one run never see two different values of a stamp
@@ -122,7 +126,10 @@ THS ==
           + Soft("SetBetween", inside => (Line.rn = run /\ Line.sosor # 0), <<Line.hook, Line.rn, run, Line.sosor>>)
           + Soft("Stable", (inside /\ runView.rn # 0) => (Line.rn = runView.rn /\ Line.sosor = runView.sosor), <<Line.hook, Line.rn, Line.sosor, runView>>)
           \* C10: before SOSOR / after the end of after_STOP_ACTIVITY no run number is visible
-          + Soft("Gone", outside => Line.rn = 0, <<Line.hook, Line.rn>>)
+          \* (a call reads its variables a little after it was started: a hook started just before SOSOR may already see the
+          \* number of the run that is being opened; such a claim is discharged by that run's SOSOR event, else it is
+          \* judged at the end of the transition - see TRun / TRel)
+          + Soft("Gone", TRUE, <<>>)
           \* C10: the four stamps are ordered where set (a stamp of a previous run would precede this run's SOSOR)
           + Soft("StampOrder", /\ (Line.eosor # 0 => Line.sosor # 0 /\ Line.sosor <= Line.eosor)
                                /\ (Line.soeor # 0 => Line.sosor # 0 /\ Line.sosor <= Line.soeor)
@@ -146,7 +153,7 @@ THStart ==
           + Soft("Ordered", 2 * Line.w + (IF Line.kind = "tasks" THEN 1 ELSE 0) > lastw, <<Line.m, Line.w, Line.kind, lastw>>)
           \* C09: after a critical failure at before_/leave_ no later hook of that transition is started
           + Soft("CancelBefore", ~cancelled, <<Line.m, Line.w, C>>)
-  /\ UNCHANGED <<scn, hooks, pred, reqi, tx, acq, step, failedH, open, cancelled, cmds, laterStart, lateErr, sawAfter, inWin, run, runView, seen, ended, endS, endC>>
+  /\ UNCHANGED <<scn, hooks, pred, reqi, tx, acq, step, failedH, open, cancelled, cmds, laterStart, lateErr, sawAfter, inWin, run, runView, seen, pg, ended, endS, endC>>
 
 \* handleHooks has awaited the calls due at (moment, weight)   [hook point env.hooks.awaited]
 THAwaited ==
@@ -165,18 +172,18 @@ THAwaited ==
           \* C09 (and C08: the call's result is collected, not dropped): the failure of a critical call that was
           \* started and has failed is reported where the call is awaited
           + Soft("CriticalFailureReported", (\E c \in C \cap failedH : HK(c).crit) => Line.errors > 0, <<Line.m, C \cap failedH, Line.errors>>)
-  /\ UNCHANGED <<scn, hooks, pred, reqi, tx, acq, lastw, open, cmds, laterStart, lateErr, sawAfter, inWin, winStarted, outStarted, run, runView, seen, ended, endS, endC>>
+  /\ UNCHANGED <<scn, hooks, pred, reqi, tx, acq, lastw, open, cmds, laterStart, lateErr, sawAfter, inWin, winStarted, outStarted, run, runView, seen, pg, ended, endS, endC>>
 
 THE ==
   /\ Line.ev = "HE"
   /\ open' = open \ {Line.hook}
   /\ failedH' = IF Line.ok THEN failedH ELSE failedH \cup ({Line.hook} \cap pendA)   \* failed and not yet collected
-  /\ UNCHANGED <<scn, hooks, pred, reqi, tx, acq, step, lastw, pendA, cancelled, cmds, laterStart, lateErr, sawAfter, inWin, winStarted, outStarted, run, runView, seen, ended, endS, endC, nviol>>
+  /\ UNCHANGED <<scn, hooks, pred, reqi, tx, acq, step, lastw, pendA, cancelled, cmds, laterStart, lateErr, sawAfter, inWin, winStarted, outStarted, run, runView, seen, pg, ended, endS, endC, nviol>>
 
 TCmd ==
   /\ Line.ev = "Cmd"
   /\ cmds' = IF Line.tx = tx THEN cmds + 1 ELSE cmds
-  /\ UNCHANGED <<scn, hooks, pred, reqi, tx, acq, step, lastw, pendA, failedH, open, cancelled, laterStart, lateErr, sawAfter, inWin, winStarted, outStarted, run, runView, seen, ended, endS, endC, nviol>>
+  /\ UNCHANGED <<scn, hooks, pred, reqi, tx, acq, step, lastw, pendA, failedH, open, cancelled, laterStart, lateErr, sawAfter, inWin, winStarted, outStarted, run, runView, seen, pg, ended, endS, endC, nviol>>
 
 \* published run events: SOSOR (START STARTED) opens a run; the end-of-run pair must occur exactly once per run
 TRun ==
@@ -193,6 +200,7 @@ TRun ==
         /\ run' = IF isStart THEN Line.rn ELSE run
         /\ runView' = IF isStart THEN NoView ELSE runView
         /\ seen' = IF isStart THEN NoSeen ELSE seen
+        /\ pg' = IF isStart THEN {c \in pg : c[2] # Line.rn} ELSE pg
         /\ ended' = IF isStart THEN TRUE ELSE IF isStartDone THEN FALSE ELSE ended   \* "ended" = no run that reached RUNNING is open
         /\ endS' = IF isStart THEN 0 ELSE IF isEndS \/ (isTd /\ endS = 0) THEN endS + 1 ELSE endS
         /\ endC' = IF isStart THEN 0 ELSE IF isEndC \/ (isTd /\ endS # 0) THEN endC + 1 ELSE endC
@@ -219,17 +227,17 @@ TReply ==
              \* C10: the run number is gone after a successful STOP and reported while RUNNING
              + Soft("Gone", over => Line.rn = 0, <<Line.op, Line.st, Line.rn>>)
              + Soft("SetBetween", (Line.code = "OK" /\ Line.st = "RUNNING") => Line.rn = run, <<Line.op, Line.rn, run>>)
-  /\ UNCHANGED <<scn, hooks, pred, tx, acq, step, lastw, pendA, failedH, open, cancelled, cmds, laterStart, lateErr, sawAfter, inWin, winStarted, outStarted, run, runView, seen, endS, endC>>
+  /\ UNCHANGED <<scn, hooks, pred, tx, acq, step, lastw, pendA, failedH, open, cancelled, cmds, laterStart, lateErr, sawAfter, inWin, winStarted, outStarted, run, runView, seen, pg, endS, endC>>
 
 \* end of a scenario: every run that was started has been ended exactly once
 TEnd ==
   /\ Line.ev = "End"
   /\ nviol' = nviol + Soft("EndExactlyOnce", run = 0 \/ ended \/ (endS = 1 /\ endC = 1), <<run, endS, endC>>)
-  /\ UNCHANGED <<scn, hooks, pred, reqi, tx, acq, step, lastw, pendA, failedH, open, cancelled, cmds, laterStart, lateErr, sawAfter, inWin, winStarted, outStarted, run, runView, seen, ended, endS, endC>>
+  /\ UNCHANGED <<scn, hooks, pred, reqi, tx, acq, step, lastw, pendA, failedH, open, cancelled, cmds, laterStart, lateErr, sawAfter, inWin, winStarted, outStarted, run, runView, seen, pg, ended, endS, endC>>
 
 TOther ==
   /\ Line.ev \notin {"Reset", "Acq", "Rel", "Step", "HS", "HStart", "HAwaited", "HE", "Cmd", "Run", "Reply", "End"}
-  /\ UNCHANGED <<scn, hooks, pred, reqi, tx, acq, step, lastw, pendA, failedH, open, cancelled, cmds, laterStart, lateErr, sawAfter, inWin, winStarted, outStarted, run, runView, seen, ended, endS, endC, nviol>>
+  /\ UNCHANGED <<scn, hooks, pred, reqi, tx, acq, step, lastw, pendA, failedH, open, cancelled, cmds, laterStart, lateErr, sawAfter, inWin, winStarted, outStarted, run, runView, seen, pg, ended, endS, endC, nviol>>
 
 TraceNext ==
   /\ l <= Len(Trace)
